@@ -244,6 +244,25 @@ def w_shape_copies(idx):
             out.append(("copy:id-not-fresh:shapes", str(ids), replay))
         if w.parent_links_ok():
             out.append(("copy:parent-link-outside-copy:shapes", str(w.parent_links_ok()), replay))
+        # the same source, its child lists assigned through the `children` property (no parent pointer is set that way;
+        # a tree is its child lists): below the copy's root every parent link must point inside the copy all the same
+        if i % 2 == 0 and len(t["from"]["kids"]) > 1:
+            w2 = World.build({"name": t["from"]["name"], "kids": [[] for _ in t["from"]["kids"]]})
+            for j, ks in enumerate(t["from"]["kids"]):
+                if ks:
+                    w2.n(j + 1).children = [w2.n(c) for c in ks]
+            nb = len(w2.nodes)
+            ok, ret, exc = w2.apply("copy", op["args"])
+            if not ok:
+                out.append((opkey(op, "raised:source-built-with-children-setter", exc), repr(exc), replay))
+            else:
+                bad = [(w2.ident(x), w2.ident(c), w2.ident(c.parent)) for x in w2.nodes[nb:] for c in x.children if c.parent is not x]
+                if bad:
+                    out.append(("copy:parent-link-outside-copy:source-built-with-children-setter", f"(lister, child, child's parent) {bad}", replay))
+                got = w2.pi(("name", "kids"))
+                if canon(got, ("name", "kids")) != canon(t["to"], ("name", "kids")):
+                    out.append(("copy:not-equal:source-built-with-children-setter", f"expected {jdump(t['to']['kids'])} got {jdump(got['kids'])}", replay))
+            n += 1
     return n, out
 
 
